@@ -78,6 +78,17 @@ func poolOracle(sc PoolScenario, r *PoolResult) (fs []Finding) {
 			add(i, cl, "direct connection: "+e.String()+"; through the pool: "+g.String()+" ("+d+")")
 		}
 	}
+	// what ended up in the backend must be what the same commands store over a direct connection
+	// (without cuts: with cuts the pool may execute a command twice)
+	if r.Cuts == 0 && len(fs) == 0 && r.FinalStore != r.ExpectedStore {
+		all := true
+		for i := range sc.Callers {
+			all = all && r.Done[i]
+		}
+		if all {
+			fs = append(fs, Finding{Sig: sc.Harness + " backend-contents-differ", What: "after all calls returned the backend holds " + trunc200(r.FinalStore) + " ; the same commands over a direct connection leave " + trunc200(r.ExpectedStore), Clause: "backend-contents"})
+		}
+	}
 	if sc.Late {
 		n := len(sc.Callers)
 		if !r.Done[n] {
@@ -87,6 +98,13 @@ func poolOracle(sc PoolScenario, r *PoolResult) (fs []Finding) {
 		}
 	}
 	return
+}
+
+func trunc200(s string) string {
+	if len(s) > 400 {
+		return s[:400] + "..."
+	}
+	return s
 }
 
 // poolCommands: per caller (disjoint keys, caller-tagged values) every command kind in hit and
@@ -247,6 +265,21 @@ func runC06(c *rt.Ctx) {
 					}
 					run(PoolScenario{Harness: "C06", BatchSize: bs, PoolSize: ps, Prep: prep, Callers: callers})
 				}
+			}
+		}
+	}
+	// a batch larger than the socket's send buffer: the write of one pooled connection stalls
+	// half-way (explorer event) while the other pooled connection keeps batching
+	for _, bs := range []int{1, 2} {
+		for i, b := range c1 {
+			if i%2 == 1 && !c.Thorough() {
+				continue
+			}
+			item++
+			if c.Mine(item) && !c.Expired() {
+				big := wire.Op{Kind: "set", Key: "c0-big", VGen: true, VLen: 3000, VSeed: 5, Flags: 77}
+				big2 := wire.Op{Kind: "append", Key: "c2-h", VGen: true, VLen: 2500, VSeed: 6}
+				run(PoolScenario{Harness: "C06", BatchSize: bs, PoolSize: 2, Prep: append(append(append([]wire.Op{}, p0...), p1...), p2...), Callers: []wire.Op{big, b, big2}, StallBytes: 700})
 			}
 		}
 	}
